@@ -62,7 +62,7 @@ def job_rows(job):
     nxt, rew, prob, V = AL.row_alphabet(A, E, R, Wv)
     S = nxt.shape[0]
     enc = T.enc_for(job["enc"], S, A, E)
-    pr = T.make_problem(nxt, rew, prob, v0=V, enc=enc, prob_as_array=job["parr"])
+    pr = T.make_problem(nxt, rew, prob, v0=V, enc=enc, prob_as_array=job["parr"], oob_zero_prob=job.get("oob", False))
     kw = dict(gamma=g, epsilon=1e-3, max_batch_size=_mbs(job["mbs"], S))
     kind = job.get("solver", "vi")
     if kind == "pvi":
@@ -194,6 +194,9 @@ def jobs_for(ctx):
         if kind == "savi":
             continue  # semi-async is C06's business (its sweep is not the synchronous backup)
         rows.append({"fn": "job_rows", "A": 1, "E": 2, "gamma": g, "mbs": 1024, "enc": "plain", "parr": False, "solver": kind})
+    # zero-probability events whose reported successor lies outside the state space (index n_states)
+    rows.append({"fn": "job_rows", "A": 2, "E": 2, "gamma": 0.9, "mbs": 1024, "enc": "plain", "parr": False, "oob": True})
+    rows.append({"fn": "job_rows", "A": 1, "E": 2, "gamma": 0.5, "mbs": 7, "enc": "plain", "parr": False, "oob": True, "solver": "pvi"})
     if q:
         rows.append({"fn": "job_rows", "A": 2, "E": 2, "gamma": 0.9, "mbs": 1024, "enc": "offset", "parr": True})
         rows.append({"fn": "job_rows", "A": 1, "E": 2, "gamma": 0.5, "mbs": 7, "enc": "2d", "parr": True})
